@@ -35,6 +35,12 @@ def run(ctx):
         fam = thrift_pairs.Fam(prog, cg0, fname)
         if thrift_pairs.anchors(rep, 'R02.s', fam):
             thrift_pairs.sync_async(rep, 'R02.s', fam)
+    gen_thrift.encode_size_order(rep, 'G02.o')
+    # keep_unknown_fields: the retained chunk is cut out by the count the shared skipper reports; the zero-copy insert
+    # of a string keeps its length prefix
+    import skippers
+    skippers.default_skipper_counts_headers(rep, 'R02.k', prog)
+    thrift_pairs.zero_copy_keeps_prefix(rep, 'R02.z', prog, cg0)
     rep.floor('G02.a', 600)
     rep.floor('G02.e', 20)
     return rep
